@@ -55,7 +55,9 @@ if confirmed:
             for tier in (["quick", "thorough"] if "--thorough" in sys.argv else ["quick"]):
                 r = run(["/verif/check", c, "--tier", tier], cwd="/verif", timeout=7200)
                 lines = [l for l in r.stdout.splitlines() if "violating cases" in l or l.startswith("INCONCLUSIVE")]
-                meta["checks"]["%s:%s" % (c, tier)] = {"exit": r.returncode, "verdict": {0: "missed", 1: "caught", 2: "inconclusive"}.get(r.returncode, "?"), "summary": (lines[-1].strip() if lines else "")[:400]}
+                _old = meta["checks"].get("%s:%s" % (c, tier))
+                _hist = (_old.get("previous_verdicts", []) + [_old["verdict"]]) if _old else []
+                meta["checks"]["%s:%s" % (c, tier)] = {"previous_verdicts": _hist, "exit": r.returncode, "verdict": {0: "missed", 1: "caught", 2: "inconclusive"}.get(r.returncode, "?"), "summary": (lines[-1].strip() if lines else "")[:400]}
                 if r.returncode == 1:
                     break
     finally:
